@@ -1097,7 +1097,8 @@ func genOpt(t *rapid.T, name string) Opt16 {
 	o := Opt16{Name: name}
 	switch name {
 	case "special-schemes":
-		o.Str = gen.Pick(t, "newscheme", []string{"gopher", "foo", "zz"})
+		// a new scheme, or a standard one given another default port (the table is the caller's)
+		o.Str = gen.Pick(t, "newscheme", []string{"gopher", "foo", "zz", "http", "ws", "ftp"})
 		o.Port = gen.Pick(t, "newport", []string{"70", "1234", ""})
 	case "path-set", "query-set", "special-query-set", "fragment-set", "special-fragment-set":
 		n := rapid.IntRange(1, 3).Draw(t, "ndelta")
@@ -1283,7 +1284,7 @@ func Gen16(t *rapid.T) Case16 {
 		}
 		c.Opts = []Opt16{{Name: "skip-equals"}}
 	case "special-scheme-effect":
-		o := Opt16{Name: "special-schemes", Str: gen.Pick(t, "newscheme", []string{"gopher", "foo", "zz"}), Port: gen.Pick(t, "newport", []string{"70", "1234", ""})}
+		o := Opt16{Name: "special-schemes", Str: gen.Pick(t, "newscheme", []string{"gopher", "foo", "zz", "http", "ws", "ftp", "wss"}), Port: gen.Pick(t, "newport", []string{"70", "1234", ""})}
 		c.Opts = []Opt16{o}
 		host := gen.Pick(t, "host", []string{"h", "example.com", "EXAMPLE.com", "1.2.3.4", "0x7f.1", "[::1]", "a b", ""})
 		port := gen.Pick(t, "port", []string{"", ":{DP}", ":81", ":", ":0{DP}", ":0", ":00"})
